@@ -26,7 +26,7 @@ def evalOpt (I : Interp) (ρ : String → Option Rat) : Expr → Option Rat
   | .call2 f a b => do pure (I f [← evalOpt I ρ a, ← evalOpt I ρ b])
 
 /-- value of variable `p` under state `σ`, resolving dependencies to depth `fuel` -/
-def valOf (I : Interp) (c : Circuit) (σ : Path → Rat) : Nat → Path → Option Rat
+def valOf (I : Interp) (c : Circuit) (ext : Path → List Rat) (σ : Path → Rat) : Nat → Path → Option Rat
   | 0, _ => none
   | fuel + 1, p => do
     let n ← c.findNode p.node
@@ -37,15 +37,16 @@ def valOf (I : Interp) (c : Circuit) (σ : Path → Rat) : Nat → Path → Opti
     | .const => some d.value
     | .alg => do
       let e ← o.defEq d.name
-      evalOpt I (fun x => valOf I c σ fuel ⟨p.node, p.op, x⟩) e.rhs
+      evalOpt I (fun x => valOf I c ext σ fuel ⟨p.node, p.op, x⟩) e.rhs
     | .input =>
       let fs := n.feeders d.name
       let es := c.edgesInto ⟨n.path, o.name, d.name⟩
-      if fs.isEmpty && es.isEmpty then some d.value
+      let xs := ext ⟨n.path, o.name, d.name⟩
+      if fs.isEmpty && es.isEmpty && xs.isEmpty then some d.value
       else do
-        let a ← sumOpt (fs.map (fun o' => valOf I c σ fuel ⟨n.path, o'.name, d.name⟩))
-        let b ← sumOpt (es.map (fun e => (valOf I c σ fuel e.src).map (e.weight * ·)))
-        pure (a + b)
+        let a ← sumOpt (fs.map (fun o' => valOf I c ext σ fuel ⟨n.path, o'.name, d.name⟩))
+        let b ← sumOpt (es.map (fun e => (valOf I c ext σ fuel e.src).map (e.weight * ·)))
+        pure (a + b + xs.sum)
 
 def Circuit.paths (c : Circuit) : List Path :=
   c.nodes.flatMap (fun n => n.ops.flatMap (fun o => o.vars.map (fun d => ⟨n.path, o.name, d.name⟩)))
@@ -61,25 +62,49 @@ def tableLookup (m : List (Path × Rat)) (p : Path) : Rat :=
   | none => 0
 
 /-- decide `IsSolution` for a concrete assignment -/
-def checkSolution (I : Interp) (c : Circuit) (σ ρ : Path → Rat) : Bool :=
+def checkSolution (I : Interp) (c : Circuit) (ext : Path → List Rat) (σ ρ : Path → Rat) : Bool :=
   c.nodes.all fun n => n.ops.all fun o => o.vars.all fun d =>
     let p : Path := ⟨n.path, o.name, d.name⟩
     match o.kindOf d with
     | .state => ρ p == σ p
     | .const => ρ p == d.value
-    | .input => ρ p == inputValue c ρ n o d
+    | .input => ρ p == inputValue c ext ρ n o d
     | .alg => match o.defEq d.name with
       | some e => ρ p == eval I (fun x => ρ ⟨n.path, o.name, x⟩) e.rhs
       | none => true
 
 /-- evaluate the whole network: the table of all variable values and the derivative of every state variable; `none` when
 something cannot be resolved (undeclared name, cyclic dependency, fuel) or the result fails the checker. -/
-def solve (I : Interp) (c : Circuit) (σ : Path → Rat) (fuel : Nat) : Option (List (Path × Rat) × List (Path × Rat)) := do
-  let tbl ← c.paths.mapM (fun p => (valOf I c σ fuel p).map (fun v => (p, v)))
+def solve (I : Interp) (c : Circuit) (ext : Path → List Rat) (σ : Path → Rat) (fuel : Nat) : Option (List (Path × Rat) × List (Path × Rat)) := do
+  let tbl ← c.paths.mapM (fun p => (valOf I c ext σ fuel p).map (fun v => (p, v)))
   let ρ := tableLookup tbl
-  if checkSolution I c σ ρ then
+  if checkSolution I c ext σ ρ then
     let ds := c.stateEqs.map (fun (p, n, o, e) => (p, deriv I ρ n o e))
     some (tbl, ds)
   else none
+
+end PyRates.Net
+
+namespace PyRates.Net
+
+/-- one fixed-step integration step of the whole network (Euler, or Heun with both evaluations at the same step index, as
+`_solve_heun` does); the state is the table of state-variable values -/
+def stepNet (I : Interp) (c : Circuit) (ext : Path → List Rat) (fuel : Nat) (heun : Bool) (dt : Rat)
+    (σ : List (Path × Rat)) : Option (List (Path × Rat)) := do
+  let (_, k1) ← solve I c ext (tableLookup σ) fuel
+  let σ1 := σ.map (fun (p, v) => (p, v + dt * tableLookup k1 p))
+  if heun then
+    let (_, k2) ← solve I c ext (tableLookup σ1) fuel
+    pure (σ.map (fun (p, v) => (p, v + dt / 2 * (tableLookup k1 p + tableLookup k2 p))))
+  else pure σ1
+
+/-- trajectory: the list of states before each of `steps` steps; `extAt k` are the extrinsic inputs during step `k` -/
+def trajectory (I : Interp) (c : Circuit) (extAt : Nat → Path → List Rat) (fuel : Nat) (heun : Bool) (dt : Rat) :
+    (steps k : Nat) → (σ : List (Path × Rat)) → Option (List (List (Path × Rat)))
+  | 0, _, _ => some []
+  | n + 1, k, σ => do
+    let σ' ← stepNet I c (extAt k) fuel heun dt σ
+    let rest ← trajectory I c extAt fuel heun dt n (k + 1) σ'
+    pure (σ :: rest)
 
 end PyRates.Net
